@@ -5,6 +5,7 @@
 #include "seams.hpp"
 
 #include <map>
+#include <sanitizer/asan_interface.h>
 
 extern "C" {
 #include <ufw/register-protocol.h>
@@ -52,12 +53,15 @@ struct Ledger {
     Script fail;                                  // one entry per allocation: non-zero = fail
     std::map<uintptr_t, size_t> live;             // block -> ordinal
     uint64_t allocs = 0, frees = 0, failed = 0, unknown_free = 0;
+    bool recycle = false;                         // pool allocator: freed blocks are handed out again, newest first, with their old content
+    std::vector<void *> pool;
     int do_alloc(void **m) {
         c->step_budget();
         int64_t s = 0;
         if (fail.next(s) && s != 0) { *m = nullptr; ++failed; c->faults_fired++; COUNT("fault.allocation_failure"); c->ev(EV_ALLOC, 0, 0, allocs); return -ENOMEM; }
-        void *p = malloc(bs);
-        memset(p, 0xbe, bs);
+        void *p;
+        if (recycle && !pool.empty()) { p = pool.back(); pool.pop_back(); ASAN_UNPOISON_MEMORY_REGION(p, bs); COUNT("probe.block_recycled_with_stale_content"); }
+        else { p = malloc(bs); memset(p, 0xbe, bs); }
         live[(uintptr_t)p] = allocs++;
         *m = p; c->ev(EV_ALLOC, 1, bs, allocs);
         return 0;
@@ -66,11 +70,13 @@ struct Ledger {
         auto it = live.find((uintptr_t)m);
         c->ev(EV_FREE, it != live.end(), 0, frees);
         if (it == live.end()) { ++unknown_free; return; }   // never passed to free(): a double free would otherwise abort before we can report it
-        live.erase(it); ++frees; free(m);
+        live.erase(it); ++frees;
+        if (recycle) { ASAN_POISON_MEMORY_REGION(m, bs); pool.push_back(m); }   // use-after-free stays visible to ASan while the block waits in the pool
+        else free(m);
     }
     // room behind a pointer inside a live block, 0 if it is not inside one
     size_t room(const void *p) const { uintptr_t x = (uintptr_t)p; for (auto &kv : live) if (x >= kv.first && x <= kv.first + bs) return kv.first + bs - x; return 0; }
-    void release_all() { for (auto &kv : live) free((void *)kv.first); live.clear(); }
+    void release_all() { for (auto &kv : live) free((void *)kv.first); live.clear(); for (void *p : pool) { ASAN_UNPOISON_MEMORY_REGION(p, bs); free(p); } pool.clear(); }
     static int generic_cb(void *d, void **m, size_t) { return ((Ledger *)d)->do_alloc(m); }
     static int slab_cb(void *d, void **m) { return ((Ledger *)d)->do_alloc(m); }
     static void free_cb(void *d, void *m) { ((Ledger *)d)->do_free(m); }
@@ -88,6 +94,7 @@ struct Backend {
     Ctx *c = nullptr; Ledger *led = nullptr; int ws = 2;
     std::vector<BeCall> log;
     std::vector<std::pair<int, uint32_t>> verdicts; size_t vpos = 0;
+    int reg_code = -1;          // >= 0: the verdict is a register-table access result, mapped by the library's regaccess2blockaccess()
     uint64_t salt = 0;
     size_t avail_payload = 0;   // octets of payload actually present in the frame being processed (set by the harness)
     RPBlockAccess access(bool write, uint32_t addr, size_t n, void *rbuf, const void *wbuf) {
@@ -97,7 +104,10 @@ struct Backend {
         call.room = led->room(p);
         size_t want = n * (size_t)ws;
         RPBlockAccess rv; rv.status = RP_RESP_ACK; rv.address = 0;
-        if (vpos < verdicts.size()) { rv.status = (RPResponse)verdicts[vpos].first; rv.address = verdicts[vpos].second; ++vpos; }
+        if (vpos < verdicts.size()) {
+            rv.status = (RPResponse)verdicts[vpos].first; rv.address = verdicts[vpos].second; ++vpos;
+            if (reg_code >= 0) { RegisterAccess ra; ra.code = (RegisterAccessCode)reg_code; ra.address = rv.address; rv = regaccess2blockaccess(ra); }
+        }
         if (rv.status != RP_RESP_ACK) { c->faults_fired++; COUNT("fault.backend_error_verdict"); }
         if (write) { size_t k = want; if (k > call.room) k = call.room; if (k > avail_payload) k = avail_payload; call.data.assign((const uint8_t *)wbuf, (const uint8_t *)wbuf + k); }
         else if (rv.status == RP_RESP_ACK) {
@@ -175,6 +185,18 @@ static Served serve(Node &N, size_t payload_avail) {
     return S;
 }
 
+// register-table result class -> response code, as the protocol document describes the codes
+static int ref_regaccess_code(int reg_code) {
+    switch (reg_code) {
+    case REG_ACCESS_SUCCESS: return RC_ACK;
+    case REG_ACCESS_UNINITIALISED: case REG_ACCESS_NOENTRY: return RC_EUNMAPPED;   // not mapped to storage
+    case REG_ACCESS_RANGE: return RC_ERANGE;
+    case REG_ACCESS_INVALID: return RC_EINVALID;
+    case REG_ACCESS_READONLY: return RC_EACCESS;
+    default: return RC_EIO;                                                            // failure / I/O error
+    }
+}
+
 // expected response frame for a request that the server accepted, given the backend's verdict
 static Frame response_for(const Frame &req, int code, uint32_t payload32, const Bytes &read_image, bool serial, int mt) {
     Frame r; r.type = req.type == T_RREQ ? T_RRESP : T_WRESP; r.meta = code; r.seq = req.seq; r.addr = req.addr;
@@ -203,7 +225,7 @@ struct RegpHarness : Harness {
     std::vector<std::string> probes(const std::string &p) const override {
         std::vector<std::string> v;
         if (p == "C06") { for (int k = 0; k < 12; ++k) { v.push_back("verdict_read_" + std::to_string(k)); v.push_back("verdict_write_" + std::to_string(k)); }
-            for (const char *s : {"pipelined_3_or_more", "sequence_wrap", "word_size_mismatch", "response_ignored", "meta_ignored", "mem8", "mem16", "serial", "tcp", "zero_block_size", "request_from_real_client"}) v.push_back(s); }
+            for (const char *s : {"pipelined_3_or_more", "sequence_wrap", "word_size_mismatch", "response_ignored", "meta_ignored", "mem8", "mem16", "serial", "tcp", "zero_block_size", "request_from_real_client", "register_table_verdict_mapped", "reception_failure_inside_session", "block_recycled_with_stale_content"}) v.push_back(s); }
         else if (p == "C07") for (const char *s : {"flip1", "flip2", "burst", "truncate", "extend", "header_word_flip", "class_header_encoding", "class_header_crc", "class_payload_size", "class_payload_crc", "raw_accept", "raw_tcp", "option_plcrc_without_hdcrc", "odd_payload_ws16", "payload_fault_answered_with_error_response"}) v.push_back(s);
         else if (p == "C08") { for (const char *s : {"req_read8", "req_read16", "req_write8", "req_write16", "resp_ack_payload", "resp_ack_empty", "resp_meta", "payload_with_slip_control_octets", "varint_prefix_2_octets", "sequence_wrap", "roundtrip_accepted"}) v.push_back(s);
             for (int k = 1; k < 12; ++k) v.push_back("resp_code_" + std::to_string(k)); }
@@ -277,7 +299,7 @@ struct RegpHarness : Harness {
         bool serial = prop == "C07" ? !r.chance(1, 5) : r.chance(1, 2);
         int mt = r.chance(1, 2) ? 16 : 8;
         p["serial"] = serial; p["mt"] = mt;
-        p["src_octet"] = r.chance(1, 2); p["snk_octet"] = r.chance(1, 2); p["slab"] = r.chance(1, 3);
+        p["src_octet"] = r.chance(1, 2); p["snk_octet"] = r.chance(1, 2); p["slab"] = r.chance(1, 3); p["recycle"] = r.chance(1, 2);
         size_t minblock = sizeof(RPFrame) + 1;
         int64_t block = 128;
         if (prop == "C09" || r.chance(1, 3)) { switch (r.below(5)) { case 0: block = (int64_t)minblock + r.range(0, 3); break; case 1: block = (int64_t)minblock + r.range(12, 40); break; case 2: block = r.range(100, 200); break; case 3: block = t.thorough() ? r.range(200, 20000) : r.range(200, 600); break; default: block = 128; } }
@@ -302,7 +324,13 @@ struct RegpHarness : Harness {
                     o["k"] = r.chance(1, 2) ? "client" : "ref"; o["f"] = frame_json(f);
                     o["verdict"] = (long long)(r.chance(1, 2) ? 0 : r.below(12)); o["vaddr"] = (long long)(r.chance(1, 2) ? f.addr + r.below(8) : r.below(0x100000000ull));
                     o["salt"] = (long long)r.below(100000);
+                    if (r.chance(1, 5)) o["regcode"] = (long long)r.below(8);   // verdict produced by the register table, mapped by regaccess2blockaccess()
                 } else { Frame f = gen_valid(r, serial, kind == 7 ? T_RRESP : (kind == 8 ? T_WRESP : T_META), mt == 16, 8); o["k"] = "ref"; o["f"] = frame_json(f); }
+                if (r.chance(1, 6)) {   // a frame that fails reception, in between the valid ones: never executed, the session goes on
+                    Frame f = frame_from(o.get("f")); Bytes b = encode(f);
+                    switch (r.below(4)) { case 0: b.resize(r.below(12)); break; case 1: b[1] |= 0x01 + (uint8_t)r.below(15); break; case 2: b[r.below(12)] ^= (uint8_t)(1u << r.below(8)); break; default: if (b.size() > 12) b[12 + r.below(b.size() - 12)] ^= (uint8_t)(1u << r.below(8)); else b.push_back(0x33); }
+                    o["k"] = "rawframe"; o["raw"] = hexs(b);
+                }
                 ops.push(o); ++pending;
             }
         } else if (prop == "C07") {
@@ -387,11 +415,11 @@ struct RegpHarness : Harness {
     }
 
     // ------------------------------------------------------------ execution
-    struct Cfg { bool serial; int mt; size_t block; bool slab, so, ko; uint16_t seq0; };
+    struct Cfg { bool serial; int mt; size_t block; bool slab, so, ko; uint16_t seq0; bool recycle; };
     static Cfg cfg_of(const Json &plan) {
         Cfg c; c.serial = plan.geti("serial") != 0; c.mt = plan.geti("mt", 16) == 8 ? 8 : 16;
         int64_t b = plan.geti("block", 128); if (b < (int64_t)sizeof(RPFrame) + 1) b = (int64_t)sizeof(RPFrame) + 1; if (b > 70000) b = 70000; c.block = (size_t)b;
-        c.slab = plan.geti("slab") != 0; c.so = plan.geti("src_octet") != 0; c.ko = plan.geti("snk_octet") != 0; c.seq0 = (uint16_t)plan.geti("seq0");
+        c.slab = plan.geti("slab") != 0; c.so = plan.geti("src_octet") != 0; c.ko = plan.geti("snk_octet") != 0; c.seq0 = (uint16_t)plan.geti("seq0"); c.recycle = plan.geti("recycle") != 0;
         return c;
     }
     static void load_frag(WireSrc &s, const Json &plan) { Json j = Json::arr(); const Json &f = plan.get("frag"); for (size_t i = 0; i < f.size(); ++i) { int64_t v = f.ati(i, 1); j.push((long long)(v < 1 ? 1 : v)); } s.frag.load(j); }
@@ -503,18 +531,20 @@ struct RegpHarness : Harness {
         if (cf.block < sizeof(RPFrame) + 41) cf.block = sizeof(RPFrame) + 41;   // receive/transmit boundary cases belong to C09
         Wire c2s, s2c, dummy;
         Node srv(c, &c2s, &s2c, cf.serial, cf.mt, cf.block, cf.slab, cf.so, cf.ko);
+        srv.led.recycle = cf.recycle;
         Node cli(c, &dummy, &c2s, cf.serial, cf.mt, 256, false, false, cf.ko);   // the client only emits
         load_frag(srv.src, plan);
         cli.p.session.sequence = cf.seq0;
         COUNT(cf.serial ? "probe.serial" : "probe.tcp"); COUNT(cf.mt == 16 ? "probe.mem16" : "probe.mem8");
-        struct Pending { Bytes raw; int verdict; uint32_t vaddr; uint64_t salt; };
+        struct Pending { Bytes raw; int verdict; uint32_t vaddr; uint64_t salt; int regcode; };
         std::vector<Pending> q; size_t qhead = 0;
         const size_t room = cf.block - sizeof(RPFrame);
         auto do_serve = [&]() -> bool {
             if (qhead >= q.size()) return true;
             Pending &pd = q[qhead++];
             Frame f; Verdict v = classify(pd.raw, f);
-            srv.be.verdicts.clear(); srv.be.vpos = 0; srv.be.salt = pd.salt;
+            srv.be.verdicts.clear(); srv.be.vpos = 0; srv.be.salt = pd.salt; srv.be.reg_code = pd.regcode;
+            if (pd.regcode >= 0) { pd.verdict = ref_regaccess_code(pd.regcode); COUNT("probe.register_table_verdict_mapped"); }
             if (v == V_ACCEPT && f.is_request()) srv.be.verdicts.push_back({pd.verdict, pd.vaddr});
             Served S = serve(srv, f.payload.size());
             c.ops_done++;
@@ -532,6 +562,15 @@ struct RegpHarness : Harness {
             const Json &o = ops.at(oi);
             const std::string k = o.gets("k");
             if (k == "serve") { if (q.size() - qhead >= 3) COUNT("probe.pipelined_3_or_more"); if (!do_serve()) return; continue; }
+            if (k == "rawframe") {
+                Bytes raw = unhex(o.gets("raw")); if (raw.size() > room) raw.resize(room);
+                Frame tf; bool bad = classify(raw, tf) != V_ACCEPT;
+                if (!bad && tf.type == T_RREQ && (uint64_t)tf.bsize * (cf.mt == 16 ? 2 : 1) + 24 > room) continue;   // a damaged size field may ask for more than fits: C09's subject
+                if (bad) { COUNT("probe.reception_failure_inside_session"); c.faults_fired++; COUNT("fault.damaged_frame_in_session"); }
+                Bytes w = frame_on(cf.serial, raw); c2s.data.insert(c2s.data.end(), w.begin(), w.end());
+                Pending pd; pd.raw = raw; pd.regcode = -1; pd.verdict = (int)(o.geti("verdict") % 12); if (pd.verdict < 0) pd.verdict = 0; pd.vaddr = (uint32_t)o.geti("vaddr"); pd.salt = (uint64_t)o.geti("salt");
+                q.push_back(pd); continue;
+            }
             Frame f = frame_from(o.get("f"));
             // keep reads inside the transmit capacity for this property
             const size_t ws = cf.mt == 16 ? 2 : 1;
@@ -557,7 +596,7 @@ struct RegpHarness : Harness {
                 Bytes w = frame_on(cf.serial, raw);
                 c2s.data.insert(c2s.data.end(), w.begin(), w.end());
             }
-            Pending pd; pd.raw = raw; pd.verdict = (int)(o.geti("verdict") % 12); if (pd.verdict < 0) pd.verdict = 0; pd.vaddr = (uint32_t)o.geti("vaddr"); pd.salt = (uint64_t)o.geti("salt");
+            Pending pd; pd.raw = raw; pd.regcode = o.has("regcode") ? (int)(o.geti("regcode") & 7) : -1; pd.verdict = (int)(o.geti("verdict") % 12); if (pd.verdict < 0) pd.verdict = 0; pd.vaddr = (uint32_t)o.geti("vaddr"); pd.salt = (uint64_t)o.geti("salt");
             q.push_back(pd);
         }
         while (qhead < q.size()) if (!do_serve()) return;
@@ -746,6 +785,7 @@ struct RegpHarness : Harness {
         Cfg cf = cfg_of(plan);
         Wire c2s, s2c;
         Node srv(c, &c2s, &s2c, cf.serial, cf.mt, cf.block, cf.slab, cf.so, cf.ko);
+        srv.led.recycle = cf.recycle;
         load_frag(srv.src, plan);
         srv.led.fail.load(plan.get("allocfail"));
         if (cf.slab) COUNT("probe.slab_allocator");
